@@ -22,7 +22,7 @@ STRENGTH = {
  "C10/1": "new tamper: an address written into the clear sender field of an encrypted envelope (ciphertext untouched)",
  "C11/1": "new reply mutation: reply amount field set to another amount and proof signed over it by the recipient's real key",
  "C12/2": "caught by C03's new op RefinalizeOtherReply (a second, different reply to a finalized slate must be refused); C12 itself does not claim it",
- "C15/1": "new op OutOfOrderReceives (key paths reach the chain out of allocation order) in the C16 restore histories",
+ "C15/1": "new engine op OutOfOrderReceives (key paths reach the chain out of allocation order) in the C15 and C16 histories; first caught by C16 (second scan changes the index), then by C15 itself",
  "C17/1": "a block is mined between the reply and the late-locked finalize in half of the late-lock cases",
 }
 def parse_a():
